@@ -413,8 +413,18 @@ func (f tFields) tearingTest(cond ssa.Value, polarity bool) (bool, bool) {
 	return false, false
 }
 
+func allSameVar(l []*types.Var) bool {
+	for _, v := range l {
+		if !an.SameField(v, l[0]) {
+			return false
+		}
+	}
+	return true
+}
+
 func handleFields(c *core.Ctx) tFields {
 	var f tFields
+	var tearingCands []*types.Var
 	st, _ := c.Named("pkg/f1/testing", "T").Underlying().(*types.Struct)
 	if st == nil {
 		panic(core.AnchorError{What: "pkg/f1/testing.T"})
@@ -432,12 +442,53 @@ func handleFields(c *core.Ctx) tFields {
 		case *types.Basic:
 			if t.Kind() == types.Bool || (t.Info()&types.IsInteger != 0 && v.Type() != t) {
 				// a plain bool, or a small enum type of the package (a phase marker)
-				if f.tearing != nil {
-					panic(core.AnchorError{What: "testing.T has more than one plain bool / enum field: which routes failures during teardown?"})
-				}
-				f.tearing = v
+				tearingCands = append(tearingCands, v)
 			}
 		}
+	}
+	switch len(tearingCands) {
+	case 0:
+	case 1:
+		f.tearing = tearingCands[0]
+	default:
+		// several such fields: the marker is the one that decides, in the method storing the failure flags, which
+		// of the two flags a failure goes to
+		var routed []*types.Var
+		for _, fn := range c.AllFuncs {
+			if core.RelPkg(fn) != "pkg/f1/testing" || fn.Signature.Recv() == nil {
+				continue
+			}
+			flags := map[*types.Var]bool{}
+			for _, op := range an.AtomicOps([]*ssa.Function{fn}) {
+				if op.Op == "Store" {
+					flags[op.Field] = true
+				}
+			}
+			if len(flags) < 2 {
+				continue
+			}
+			for _, b := range fn.Blocks {
+				iff, ok := b.Instrs[len(b.Instrs)-1].(*ssa.If)
+				if !ok {
+					continue
+				}
+				cond := an.Strip(iff.Cond)
+				if bo, isBin := cond.(*ssa.BinOp); isBin {
+					cond = an.Strip(bo.X)
+				}
+				if fld, _ := an.TerminalField(cond); fld != nil {
+					for _, cand := range tearingCands {
+						if an.SameField(fld, cand) {
+							routed = append(routed, cand)
+						}
+					}
+				}
+			}
+		}
+		if len(routed) == 0 || !allSameVar(routed) {
+			panic(core.AnchorError{What: "testing.T has more than one plain bool / enum field and the failure-routing method does not single one out: which routes failures during teardown?"})
+		}
+		f.tearing = routed[0]
 	}
 	if f.tearing != nil {
 		reset := c.MustFn("pkg/f1/testing", "T.Reset")
